@@ -116,6 +116,21 @@ CHECKS["C20"] = (
     "DESIGN.md §4 C20",
 )
 
+CHECKS["C02"] = (
+    "E-CH",
+    "CrossHair/z3 symbolic execution of parse_object/parse_args on one real parser per type hint; relational oracles (container vs. elements, Union vs. OR of members, all member permutations) evaluated by the real code itself",
+    "Bounded symbolic model checking of the real code. For ~45 type hints (7 leaf types; List/Dict/Set/Tuple/Optional over them; fixed "
+    "tuples; 10+ Unions in every member order; depth-2 nestings; ~90 and depth 3 in the thorough tier) values are drawn from a bounded "
+    "shape family whose shape is chosen by solver integers and whose numeric leaves are symbolic. Each exhausted path tree checks (1) an "
+    "accepted result conforms structurally to the hint, (2) a strictly conforming value is never rejected (and returned unchanged when it "
+    "holds no strings), (3) a container is accepted iff every element is accepted in element position, a fixed tuple iff arity and "
+    "elements agree, a Union iff some member accepts - for every permutation of the members, through objects and through argv texts.",
+    "Trusted: the 40-line structural predicate strict_conforms (Literal membership as Python `in`), CrossHair/z3, floats as reals, "
+    "restricted-int leaves from a window. Outside: symbolic strings (fixed menus of look-alike texts), Callable/Type/Protocol hints, "
+    "class types (C14), value equality across Union orders.",
+    "DESIGN.md §4 C02",
+)
+
 NOT_APPLICABLE = {
     "C13": "the resolver's only input is source code on disk (inspect.getsource/ast.parse/import); a symbolic program cannot be "
     "represented for that code and types/defaults are part of the program, so no dimension of the quantifier can be a solver variable",
